@@ -334,6 +334,15 @@ func TestC12Pkg(t *testing.T) {
 			b.Pkg(paPath).Var(&c12gx).Set(5)
 			b.ExportFunc("foo").As(as).Return(304)
 		}, [3]int{-11, -12, 304}},
+		{"Pkg(pa), Reset (not a lookup), then ExportFunc(foo): the override is still pending", func(b *mocker.Builder) {
+			b.Pkg(paPath)
+			b.Reset()
+			b.ExportFunc("foo").As(as).Return(106)
+		}, [3]int{106, -12, -4}},
+		{"Pkg(pb).Reset().ExportFunc(foo) in one chain", func(b *mocker.Builder) {
+			b.Func(F).Return(8)
+			b.Pkg(pbPath).Reset().ExportFunc("foo").As(as).Return(206)
+		}, [3]int{-11, 206, -4}},
 		{"override then lookup of the same name again continues the pa mocker", func(b *mocker.Builder) {
 			b.Pkg(paPath).ExportFunc("foo").As(as).Return(102)
 			b.Pkg(paPath).ExportFunc("foo").As(as).When(5).Return(103)
